@@ -75,6 +75,62 @@ fn unbv128(v: &Value) -> u128 {
     r
 }
 
+/// The list named by a RangeListRef value: `list` = entries {k, a, b} with
+/// k = base | opair | se | slen, or the short form `v` (one start/end entry).
+fn range_list_of(val: &Value) -> RangeList {
+    let Some(list) = val["list"].as_array() else {
+        return RangeList(vec![Range::StartEnd {
+            begin: Address::Constant(0x10),
+            end: Address::Constant(0x20 + unbv(&val["v"])),
+        }]);
+    };
+    RangeList(
+        list.iter()
+            .map(|e| {
+                let (a, b) = (unbv(&e["a"]), unbv(&e["b"]));
+                match e["k"].as_str().expect("entry kind") {
+                    "base" => Range::BaseAddress { address: Address::Constant(a) },
+                    "opair" => Range::OffsetPair { begin: a, end: b },
+                    "se" => Range::StartEnd { begin: Address::Constant(a), end: Address::Constant(b) },
+                    "slen" => Range::StartLength { begin: Address::Constant(a), length: b },
+                    k => panic!("unknown range entry {}", k),
+                }
+            })
+            .collect(),
+    )
+}
+
+/// The list named by a LocationListRef value (entries additionally carry raw
+/// expression bytes `d`; k may also be defloc).
+fn loc_list_of(val: &Value) -> LocationList {
+    let Some(list) = val["list"].as_array() else {
+        let n = unbv(&val["v"]);
+        let mut ex = Expression::new();
+        ex.op_reg(gimli::Register(n as u16));
+        return LocationList(vec![Location::StartEnd {
+            begin: Address::Constant(0x10),
+            end: Address::Constant(0x20 + n),
+            data: ex,
+        }]);
+    };
+    LocationList(
+        list.iter()
+            .map(|e| {
+                let (a, b) = (unbv(&e["a"]), unbv(&e["b"]));
+                let data = Expression::raw(bytes_of(&e["d"]));
+                match e["k"].as_str().expect("entry kind") {
+                    "base" => Location::BaseAddress { address: Address::Constant(a) },
+                    "opair" => Location::OffsetPair { begin: a, end: b, data },
+                    "se" => Location::StartEnd { begin: Address::Constant(a), end: Address::Constant(b), data },
+                    "slen" => Location::StartLength { begin: Address::Constant(a), length: b, data },
+                    "defloc" => Location::DefaultLocation { data },
+                    k => panic!("unknown location entry {}", k),
+                }
+            })
+            .collect(),
+    )
+}
+
 /// Attribute values that do not depend on ids, tables or lists.
 fn simple_value(val: &Value) -> AttributeValue {
     let mut b = Builder { dwarf: write::Dwarf::new(), units: Vec::new(), ids: Vec::new(), files: Vec::new() };
@@ -118,23 +174,14 @@ impl Builder {
             "DebugInfoRefSup" => AttributeValue::DebugInfoRefSup(DebugInfoOffset(n as usize)),
             "LineProgramRef" => AttributeValue::LineProgramRef,
             "LocationListRef" => {
-                let mut ex = Expression::new();
-                ex.op_reg(gimli::Register(n as u16));
-                let list = LocationList(vec![Location::StartEnd {
-                    begin: Address::Constant(0x10),
-                    end: Address::Constant(0x20 + n),
-                    data: ex,
-                }]);
+                let list = loc_list_of(val);
                 let unit = self.dwarf.units.get_mut(self.units[u]);
                 AttributeValue::LocationListRef(unit.locations.add(list))
             }
             "DebugMacinfoRef" => AttributeValue::DebugMacinfoRef(DebugMacinfoOffset(n as usize)),
             "DebugMacroRef" => AttributeValue::DebugMacroRef(DebugMacroOffset(n as usize)),
             "RangeListRef" => {
-                let list = RangeList(vec![Range::StartEnd {
-                    begin: Address::Constant(0x10),
-                    end: Address::Constant(0x20 + n),
-                }]);
+                let list = range_list_of(val);
                 let unit = self.dwarf.units.get_mut(self.units[u]);
                 AttributeValue::RangeListRef(unit.ranges.add(list))
             }
@@ -594,9 +641,9 @@ fn replay_incremental(case: &Value, endian: RunTimeEndian) -> Value {
                                 }
                                 AttributeValue::Exprloc(ex)
                             }
-                            "LocationListRef" | "RangeListRef" | "FileIndex" => {
-                                return json!({"ok": false, "stage": "unsupported-in-incremental"})
-                            }
+                            "RangeListRef" => AttributeValue::RangeListRef(unit.ranges.add(range_list_of(val))),
+                            "LocationListRef" => AttributeValue::LocationListRef(unit.locations.add(loc_list_of(val))),
+                            "FileIndex" => return json!({"ok": false, "stage": "unsupported-in-incremental"}),
                             _ => simple_value(val),
                         };
                         unit.get_mut(ent(u, &c["e"])).set(at_by_name(c["name"].as_str().unwrap()), v);
